@@ -1,3 +1,605 @@
 import BarterModel.Model.Position
+/-! Helper lemmas for C02 (and later C15/C16): field projections of the four arms of
+`update_from_trade`, the arm case split, and the single-step laws (signed size, conservation, fees,
+well-formedness, exit-iff-cross). -/
 namespace BarterModel.Position
+
+macro "inc_field" : tactic =>
+  `(tactic| (simp only [Position.increase, Position.updatePnlUnrealised]; try (split <;> rfl)))
+section fields
+variable (p : Position) (t : Trade) (id : Nat)
+
+@[simp] theorem pushTrade_side : (p.pushTrade id).side = p.side := rfl
+@[simp] theorem pushTrade_instrument : (p.pushTrade id).instrument = p.instrument := rfl
+@[simp] theorem pushTrade_pea : (p.pushTrade id).priceEntryAverage = p.priceEntryAverage := rfl
+@[simp] theorem pushTrade_qabs : (p.pushTrade id).quantityAbs = p.quantityAbs := rfl
+@[simp] theorem pushTrade_qmax : (p.pushTrade id).quantityAbsMax = p.quantityAbsMax := rfl
+@[simp] theorem pushTrade_pnl : (p.pushTrade id).pnlRealised = p.pnlRealised := rfl
+@[simp] theorem pushTrade_fe : (p.pushTrade id).feesEnter = p.feesEnter := rfl
+@[simp] theorem pushTrade_fx : (p.pushTrade id).feesExit = p.feesExit := rfl
+@[simp] theorem pushTrade_te : (p.pushTrade id).timeEnter = p.timeEnter := rfl
+@[simp] theorem pushTrade_trades : (p.pushTrade id).trades = p.trades ++ [id] := rfl
+
+@[simp] theorem increase_side : (p.increase t).side = p.side := by
+  inc_field
+@[simp] theorem increase_instrument : (p.increase t).instrument = p.instrument := by
+  inc_field
+@[simp] theorem increase_pea : (p.increase t).priceEntryAverage =
+    calculatePriceEntryAverage p.priceEntryAverage p.quantityAbs t.price (abs t.quantity) := by
+  inc_field
+@[simp] theorem increase_qabs : (p.increase t).quantityAbs = p.quantityAbs + abs t.quantity := by
+  inc_field
+@[simp] theorem increase_qmax : (p.increase t).quantityAbsMax =
+    if p.quantityAbs + abs t.quantity > p.quantityAbsMax then p.quantityAbs + abs t.quantity
+    else p.quantityAbsMax := by
+  inc_field
+@[simp] theorem increase_pnl : (p.increase t).pnlRealised = p.pnlRealised - t.fees := by
+  inc_field
+@[simp] theorem increase_fe : (p.increase t).feesEnter = p.feesEnter + t.fees := by
+  inc_field
+@[simp] theorem increase_fx : (p.increase t).feesExit = p.feesExit := by
+  inc_field
+@[simp] theorem increase_te : (p.increase t).timeEnter = p.timeEnter := by
+  inc_field
+@[simp] theorem increase_tu : (p.increase t).timeExchangeUpdate = t.time := by
+  inc_field
+@[simp] theorem increase_trades : (p.increase t).trades = p.trades := by
+  inc_field
+
+@[simp] theorem reduce_side : (p.reduce t).side = p.side := rfl
+@[simp] theorem reduce_instrument : (p.reduce t).instrument = p.instrument := rfl
+@[simp] theorem reduce_pea : (p.reduce t).priceEntryAverage = p.priceEntryAverage := rfl
+@[simp] theorem reduce_qabs : (p.reduce t).quantityAbs = p.quantityAbs - abs t.quantity := rfl
+@[simp] theorem reduce_qmax : (p.reduce t).quantityAbsMax = p.quantityAbsMax := rfl
+@[simp] theorem reduce_pnl : (p.reduce t).pnlRealised = p.pnlRealised +
+    calculatePnlRealised p.side p.priceEntryAverage t.quantity t.price t.fees := rfl
+@[simp] theorem reduce_fe : (p.reduce t).feesEnter = p.feesEnter := rfl
+@[simp] theorem reduce_fx : (p.reduce t).feesExit = p.feesExit + t.fees := rfl
+@[simp] theorem reduce_te : (p.reduce t).timeEnter = p.timeEnter := rfl
+@[simp] theorem reduce_tu : (p.reduce t).timeExchangeUpdate = t.time := rfl
+@[simp] theorem reduce_trades : (p.reduce t).trades = p.trades := rfl
+
+@[simp] theorem closeExact_side : (p.closeExact t).side = p.side := rfl
+@[simp] theorem closeExact_instrument : (p.closeExact t).instrument = p.instrument := rfl
+@[simp] theorem closeExact_pea : (p.closeExact t).priceEntryAverage = p.priceEntryAverage := rfl
+@[simp] theorem closeExact_qmax : (p.closeExact t).quantityAbsMax = p.quantityAbsMax := rfl
+@[simp] theorem closeExact_pnl : (p.closeExact t).pnlRealised = p.pnlRealised +
+    calculatePnlRealised p.side p.priceEntryAverage t.quantity t.price t.fees := rfl
+@[simp] theorem closeExact_fe : (p.closeExact t).feesEnter = p.feesEnter := rfl
+@[simp] theorem closeExact_fx : (p.closeExact t).feesExit = p.feesExit + t.fees := rfl
+@[simp] theorem closeExact_te : (p.closeExact t).timeEnter = p.timeEnter := rfl
+@[simp] theorem closeExact_tx : (p.closeExact t).timeExit = t.time := rfl
+@[simp] theorem closeExact_trades : (p.closeExact t).trades = p.trades := rfl
+
+@[simp] theorem flip_exit_side : (p.flip t).2.side = p.side := rfl
+@[simp] theorem flip_exit_instrument : (p.flip t).2.instrument = p.instrument := rfl
+@[simp] theorem flip_exit_pea : (p.flip t).2.priceEntryAverage = p.priceEntryAverage := rfl
+@[simp] theorem flip_exit_qmax : (p.flip t).2.quantityAbsMax = p.quantityAbsMax := rfl
+@[simp] theorem flip_exit_pnl : (p.flip t).2.pnlRealised = p.pnlRealised +
+    calculatePnlRealised p.side p.priceEntryAverage p.quantityAbs t.price
+      (t.fees * (p.quantityAbs / abs t.quantity)) := rfl
+@[simp] theorem flip_exit_fe : (p.flip t).2.feesEnter = p.feesEnter := rfl
+@[simp] theorem flip_exit_fx : (p.flip t).2.feesExit =
+    p.feesExit + t.fees * (p.quantityAbs / abs t.quantity) := rfl
+@[simp] theorem flip_exit_te : (p.flip t).2.timeEnter = p.timeEnter := rfl
+@[simp] theorem flip_exit_tx : (p.flip t).2.timeExit = t.time := rfl
+@[simp] theorem flip_exit_trades : (p.flip t).2.trades = p.trades := rfl
+theorem flip_next : (p.flip t).1 = Position.ofTrade
+    { t with quantity := abs t.quantity - p.quantityAbs,
+             fees := t.fees * ((abs t.quantity - p.quantityAbs) / abs t.quantity) } := rfl
+end fields
+
+
+
+theorem sum_append_rat (l₁ l₂ : List Rat) : (l₁ ++ l₂).sum = l₁.sum + l₂.sum := by
+  induction l₁ with
+  | nil => simp [Rat.zero_add]
+  | cons a l ih => simp [ih, Rat.add_assoc]
+
+theorem abs_pos {q : Rat} (h : 0 < q) : abs q = q := by
+  unfold abs; grind
+
+/-- The four arms of `update_from_trade` as a case split (same instrument). -/
+theorem updateFromTrade_cases (p : Position) (t : Trade) (hi : p.instrument = t.instrument) :
+    (p.side = t.side ∧ p.updateFromTrade t = (some ((p.pushTrade t.id).increase t), none)) ∨
+    (p.side ≠ t.side ∧ abs t.quantity < p.quantityAbs ∧
+      p.updateFromTrade t = (some ((p.pushTrade t.id).reduce t), none)) ∨
+    (p.side ≠ t.side ∧ p.quantityAbs = abs t.quantity ∧
+      p.updateFromTrade t = (none, some ((p.pushTrade t.id).closeExact t))) ∨
+    (p.side ≠ t.side ∧ p.quantityAbs < abs t.quantity ∧
+      p.updateFromTrade t =
+        (some ((p.pushTrade t.id).flip t).1, some ((p.pushTrade t.id).flip t).2)) := by
+  unfold Position.updateFromTrade
+  simp only [hi, ne_eq, not_true_eq_false, ↓reduceIte, pushTrade_side, pushTrade_qabs]
+  by_cases hs : p.side = t.side
+  · simp [hs]
+  · by_cases h1 : p.quantityAbs > abs t.quantity
+    · simp [hs, h1]
+    · by_cases h2 : p.quantityAbs = abs t.quantity
+      · simp [hs, h2]
+      · simp [hs, h1, h2]; grind
+
+
+
+/-- A position's contribution to the conservation law: realised PnL minus the open quantity valued
+at the average entry price. -/
+def Position.cons (p : Position) : Rat := p.pnlRealised - p.signedQty * p.priceEntryAverage
+
+structure WF (i : Nat) (p : Position) : Prop where
+  instr : p.instrument = i
+  pos : 0 < p.quantityAbs
+  le : p.quantityAbs ≤ p.quantityAbsMax
+
+def optSigned : Option Position → Rat
+  | some p => p.signedQty
+  | none => 0
+def optCons : Option Position → Rat
+  | some p => p.cons
+  | none => 0
+def optFees : Option Position → Rat
+  | some p => p.feesEnter + p.feesExit
+  | none => 0
+def exPnl : Option PositionExited → Rat
+  | some e => e.pnlRealised
+  | none => 0
+def exFees : Option PositionExited → Rat
+  | some e => e.feesEnter + e.feesExit
+  | none => 0
+
+theorem update_signed {i : Nat} {p : Position} (hp : WF i p) {t : Trade} (hi : t.instrument = i)
+    (hq : 0 < t.quantity) :
+    optSigned (p.updateFromTrade t).1 = p.signedQty + signedQty t := by
+  have hi' : p.instrument = t.instrument := by rw [hp.instr, hi]
+  have hpos := hp.pos
+  have habs := abs_pos hq
+  rcases updateFromTrade_cases p t hi' with ⟨hs, h⟩ | ⟨hs, hlt, h⟩ | ⟨hs, heq, h⟩ | ⟨hs, hlt, h⟩ <;>
+    rw [h] <;> simp only [optSigned, Position.signedQty, signedQty, increase_side, increase_qabs,
+      reduce_side, reduce_qabs, pushTrade_side, pushTrade_qabs, flip_next, Position.ofTrade, habs] at * <;>
+    cases hps : p.side <;> cases hts : t.side <;> simp_all <;> grind [abs]
+
+
+
+theorem update_fees {i : Nat} {p : Position} (hp : WF i p) {t : Trade} (hi : t.instrument = i)
+    (hq : 0 < t.quantity) :
+    exFees (p.updateFromTrade t).2 + optFees (p.updateFromTrade t).1 =
+      p.feesEnter + p.feesExit + t.fees := by
+  have hi' : p.instrument = t.instrument := by rw [hp.instr, hi]
+  have habs := abs_pos hq
+  have hne : t.quantity ≠ 0 := by grind
+  rcases updateFromTrade_cases p t hi' with ⟨hs, h⟩ | ⟨hs, hlt, h⟩ | ⟨hs, heq, h⟩ | ⟨hs, hlt, h⟩ <;>
+    rw [h] <;> simp only [optFees, exFees, increase_fe, increase_fx, reduce_fe, reduce_fx,
+      closeExact_fe, closeExact_fx, flip_exit_fe, flip_exit_fx, pushTrade_fe, pushTrade_fx,
+      pushTrade_qabs, flip_next, Position.ofTrade, habs] <;> grind
+
+theorem update_wf {i : Nat} {p : Position} (hp : WF i p) {t : Trade} (hi : t.instrument = i)
+    (hq : 0 < t.quantity) (p' : Position) (h' : (p.updateFromTrade t).1 = some p') : WF i p' := by
+  have hi' : p.instrument = t.instrument := by rw [hp.instr, hi]
+  have habs := abs_pos hq
+  have ⟨h1, h2, h3⟩ := hp
+  rcases updateFromTrade_cases p t hi' with ⟨hs, h⟩ | ⟨hs, hlt, h⟩ | ⟨hs, heq, h⟩ | ⟨hs, hlt, h⟩ <;>
+    rw [h] at h' <;> simp only [Option.some.injEq, reduceCtorEq] at h' <;> subst h'
+  · constructor <;> simp only [increase_instrument, increase_qabs, increase_qmax, pushTrade_instrument,
+      pushTrade_qabs, pushTrade_qmax, habs] <;> grind
+  · constructor <;> simp only [reduce_instrument, reduce_qabs, reduce_qmax, pushTrade_instrument,
+      pushTrade_qabs, pushTrade_qmax, habs] <;> grind
+  · rw [habs] at hlt
+    constructor <;> simp only [flip_next, Position.ofTrade, pushTrade_qabs, habs] <;> grind [abs]
+
+theorem update_exit_iff {i : Nat} {p : Position} (hp : WF i p) {t : Trade} (hi : t.instrument = i)
+    (hq : 0 < t.quantity) :
+    (p.updateFromTrade t).2.isSome ↔
+      ReachesOrCrossesZero p.signedQty (p.signedQty + signedQty t) := by
+  have hi' : p.instrument = t.instrument := by rw [hp.instr, hi]
+  have habs := abs_pos hq
+  have ⟨h1, h2, h3⟩ := hp
+  unfold ReachesOrCrossesZero
+  rcases updateFromTrade_cases p t hi' with ⟨hs, h⟩ | ⟨hs, hlt, h⟩ | ⟨hs, heq, h⟩ | ⟨hs, hlt, h⟩ <;>
+    rw [h] <;> simp only [Position.signedQty, signedQty, habs] at * <;>
+    cases hps : p.side <;> cases hts : t.side <;> simp_all <;> grind
+
+theorem update_cons {i : Nat} {p : Position} (hp : WF i p) {t : Trade} (hi : t.instrument = i)
+    (hq : 0 < t.quantity) :
+    exPnl (p.updateFromTrade t).2 + optCons (p.updateFromTrade t).1 = p.cons + cashOf t := by
+  have hi' : p.instrument = t.instrument := by rw [hp.instr, hi]
+  have habs := abs_pos hq
+  have hne : t.quantity ≠ 0 := by grind
+  have ⟨h1, h2, h3⟩ := hp
+  have hne2 : p.quantityAbs + t.quantity ≠ 0 := by grind
+  have habs2 := abs_pos h2
+  rcases updateFromTrade_cases p t hi' with ⟨hs, h⟩ | ⟨hs, hlt, h⟩ | ⟨hs, heq, h⟩ | ⟨hs, hlt, h⟩ <;>
+    rw [h] <;> simp only [optCons, exPnl, Position.cons, Position.signedQty, cashOf,
+      increase_side, increase_qabs, increase_pnl, increase_pea, reduce_side, reduce_qabs, reduce_pnl,
+      reduce_pea, closeExact_pnl, flip_exit_pnl, pushTrade_side, pushTrade_qabs, pushTrade_pnl,
+      pushTrade_pea, flip_next, Position.ofTrade, calculatePnlRealised, calculatePriceEntryAverage,
+      habs, habs2] at * <;>
+    cases hps : p.side <;> cases hts : t.side <;> simp_all <;> grind [abs]
+
+
+
+/-- Every open position of the manager is well-formed for instrument `i`. -/
+def PMWF (i : Nat) (pm : PositionManager) : Prop := ∀ p, pm.current = some p → WF i p
+
+theorem ofTrade_wf {t : Trade} {i : Nat} (hi : t.instrument = i) (hq : 0 < t.quantity) :
+    WF i (Position.ofTrade t) := by
+  have habs := abs_pos hq
+  constructor <;> simp only [Position.ofTrade, habs] <;> grind
+
+section pm
+variable {i : Nat} {pm : PositionManager} (hp : PMWF i pm) {t : Trade} (hi : t.instrument = i)
+  (hq : 0 < t.quantity)
+include hp hi hq
+
+theorem pm_update_wf : PMWF i (pm.update t).1 := by
+  unfold PositionManager.update
+  cases hc : pm.current with
+  | none => intro p h; simp at h; subst h; exact ofTrade_wf hi hq
+  | some p => intro p' h; exact update_wf (hp p hc) hi hq p' (by simpa using h)
+
+theorem pm_update_signed : optSigned (pm.update t).1.current = optSigned pm.current + signedQty t := by
+  unfold PositionManager.update
+  cases hc : pm.current with
+  | none =>
+    have habs := abs_pos hq
+    cases hts : t.side <;> simp [optSigned, Position.ofTrade, Position.signedQty, signedQty, hts, habs, Rat.zero_add]
+  | some p => simpa [optSigned] using update_signed (hp p hc) hi hq
+
+theorem pm_update_cons :
+    exPnl (pm.update t).2 + optCons (pm.update t).1.current = optCons pm.current + cashOf t := by
+  unfold PositionManager.update
+  cases hc : pm.current with
+  | none =>
+    have habs := abs_pos hq
+    cases hts : t.side <;>
+      simp [optCons, exPnl, Position.cons, Position.ofTrade, Position.signedQty, cashOf, hts, habs] <;> grind
+  | some p => simpa [optCons] using update_cons (hp p hc) hi hq
+
+theorem pm_update_fees :
+    exFees (pm.update t).2 + optFees (pm.update t).1.current = optFees pm.current + t.fees := by
+  unfold PositionManager.update
+  cases hc : pm.current with
+  | none => simp [optFees, exFees, Position.ofTrade]; grind
+  | some p => simpa [optFees] using update_fees (hp p hc) hi hq
+
+theorem pm_update_exit_iff :
+    (pm.update t).2.isSome ↔
+      ReachesOrCrossesZero (optSigned pm.current) (optSigned pm.current + signedQty t) := by
+  unfold PositionManager.update
+  cases hc : pm.current with
+  | none => simp [optSigned, ReachesOrCrossesZero]
+  | some p => simpa [optSigned] using update_exit_iff (hp p hc) hi hq
+end pm
+
+/-! ### Histories -/
+
+def Run.closedPnl (r : Run) : Rat := (r.exits.map (·.pnlRealised)).sum
+def Run.closedFees (r : Run) : Rat := (r.exits.map (fun e => e.feesEnter + e.feesExit)).sum
+
+theorem Run.pnl_eq (r : Run) : r.pnlRealised - r.pm.openValue = r.closedPnl + optCons r.pm.current := by
+  unfold Run.pnlRealised PositionManager.openValue Run.closedPnl
+  cases r.pm.current <;> simp [optCons, Position.cons] <;> grind
+
+theorem Run.fees_eq (r : Run) : r.fees = r.closedFees + optFees r.pm.current := by
+  unfold Run.fees Run.closedFees
+  cases r.pm.current <;> simp [optFees]
+
+theorem pm_signed_eq (pm : PositionManager) : pm.signedQty = optSigned pm.current := by
+  unfold PositionManager.signedQty; cases pm.current <;> rfl
+
+theorem step_closedPnl (r : Run) (t : Trade) :
+    (r.step t).closedPnl = r.closedPnl + exPnl (r.pm.update t).2 := by
+  simp only [Run.step, Run.closedPnl, List.map_append, sum_append_rat]
+  cases (r.pm.update t).2 <;> simp [exPnl, Rat.add_zero]
+
+theorem step_closedFees (r : Run) (t : Trade) :
+    (r.step t).closedFees = r.closedFees + exFees (r.pm.update t).2 := by
+  simp only [Run.step, Run.closedFees, List.map_append, sum_append_rat]
+  cases (r.pm.update t).2 <;> simp [exFees, Rat.add_zero]
+
+/-- The invariant tying a run to the abstract quantities of the history that produced it. -/
+structure Inv (i : Nat) (r : Run) (n c F : Rat) : Prop where
+  wf : PMWF i r.pm
+  signed : r.pm.signedQty = n
+  cons : r.pnlRealised - r.pm.openValue = c
+  fees : r.fees = F
+
+theorem inv_init (i : Nat) : Inv i Run.init 0 0 0 := by
+  constructor
+  · intro p h; simp [Run.init, PositionManager.init] at h
+  · rfl
+  · simp [Run.pnlRealised, Run.init, PositionManager.init, PositionManager.openValue]; grind
+  · simp [Run.fees, Run.init, PositionManager.init]; grind
+
+theorem inv_step {i : Nat} {r : Run} {n c F : Rat} (h : Inv i r n c F) {t : Trade}
+    (hi : t.instrument = i) (hq : 0 < t.quantity) :
+    Inv i (r.step t) (n + signedQty t) (c + cashOf t) (F + t.fees) := by
+  obtain ⟨hwf, hs, hc, hf⟩ := h
+  have h1 := pm_update_signed hwf hi hq
+  have h2 := pm_update_cons hwf hi hq
+  have h3 := pm_update_fees hwf hi hq
+  rw [Run.pnl_eq] at hc; rw [Run.fees_eq] at hf; rw [pm_signed_eq] at hs
+  constructor
+  · exact pm_update_wf hwf hi hq
+  · rw [pm_signed_eq]; show optSigned (r.pm.update t).1.current = _; rw [h1, hs]
+  · rw [Run.pnl_eq, step_closedPnl]; show _ + optCons (r.pm.update t).1.current = _; grind
+  · rw [Run.fees_eq, step_closedFees]; show _ + optFees (r.pm.update t).1.current = _; grind
+
+
+theorem inv_run {i : Nat} (fs : List Trade) (h1 : OneInstrument i fs) (h2 : PosQty fs)
+    {r : Run} {n c F : Rat} (h : Inv i r n c F) :
+    Inv i (r.run fs) (n + net fs) (c + cash fs) (F + feeSum fs) := by
+  induction fs generalizing r n c F with
+  | nil => simpa [Run.run, net, cash, feeSum, Rat.add_zero] using h
+  | cons f fs ih =>
+    have := ih (fun x hx => h1 x (by simp [hx])) (fun x hx => h2 x (by simp [hx]))
+      (inv_step h (h1 f (by simp)) (h2 f (by simp)))
+    simpa [Run.run, net, cash, feeSum, Rat.add_assoc] using this
+
+theorem inv_runFills {i : Nat} (fs : List Trade) (h1 : OneInstrument i fs) (h2 : PosQty fs) :
+    Inv i (runFills fs) (net fs) (cash fs) (feeSum fs) := by
+  simpa [runFills, Rat.zero_add] using inv_run fs h1 h2 (inv_init i)
+
+
+
+/-- The open position `p` is the one whose life the history describes. -/
+structure LifeRel (p : Position) (l : Life) : Prop where
+  net : p.signedQty = l.net
+  ids : p.trades = l.ids
+  mx : p.quantityAbsMax = l.maxAbs
+  te : p.timeEnter = l.timeEnter
+
+theorem signed_ne_zero {i : Nat} {p : Position} (hp : WF i p) : p.signedQty ≠ 0 := by
+  have := hp.pos
+  unfold Position.signedQty; cases p.side <;> grind
+
+theorem signed_abs {i : Nat} {p : Position} (hp : WF i p) : abs p.signedQty = p.quantityAbs := by
+  have := hp.pos
+  unfold Position.signedQty abs; cases p.side <;> grind
+
+theorem ofTrade_life {t : Trade} (hq : 0 < t.quantity) :
+    LifeRel (Position.ofTrade t) (Life.init.step t) := by
+  have habs := abs_pos hq
+  have h0 : (0 : Rat) + signedQty t = signedQty t := Rat.zero_add _
+  constructor <;> simp [Life.step, Life.init, Position.ofTrade, Position.signedQty, habs, h0] <;>
+    cases hts : t.side <;> simp [signedQty, hts, abs] <;> grind
+
+theorem update_life {i : Nat} {p : Position} (hp : WF i p) {l : Life} (hl : LifeRel p l) {t : Trade}
+    (hi : t.instrument = i) (hq : 0 < t.quantity) :
+    (∀ p', (p.updateFromTrade t).1 = some p' → LifeRel p' (l.step t)) ∧
+    ((p.updateFromTrade t).1 = none → l.step t = Life.init) ∧
+    (∀ e, (p.updateFromTrade t).2 = some e →
+      e.trades = l.ids ++ [t.id] ∧ e.quantityAbsMax = l.maxAbs ∧ e.timeEnter = l.timeEnter ∧
+      e.timeExit = t.time ∧ e.side = p.side ∧ e.instrument = p.instrument ∧
+      e.priceEntryAverage = p.priceEntryAverage) := by
+  have hi' : p.instrument = t.instrument := by rw [hp.instr, hi]
+  have habs := abs_pos hq
+  have ⟨h1, h2, h3⟩ := hp
+  obtain ⟨l1, l2, l3, l4⟩ := hl
+  have hsabs := signed_abs hp
+  have hne := signed_ne_zero hp
+  have hps' : p.side = .buy ∨ p.side = .sell := by cases p.side <;> simp
+  have hts' : t.side = .buy ∨ t.side = .sell := by cases t.side <;> simp
+  obtain ⟨ln, lids, lmx, lte⟩ := l
+  simp only at l1 l2 l3 l4
+  subst l1 l2 l3 l4
+  rcases updateFromTrade_cases p t hi' with ⟨hs, h⟩ | ⟨hs, hlt, h⟩ | ⟨hs, heq, h⟩ | ⟨hs, hlt, h⟩ <;>
+    rw [h] <;> simp only [Option.some.injEq, reduceCtorEq, forall_eq', false_implies, implies_true,
+      true_and, and_true, forall_const]
+  · constructor <;>
+      simp only [increase_side, increase_qabs, increase_qmax, increase_te, increase_trades,
+        pushTrade_side, pushTrade_qabs, pushTrade_qmax, pushTrade_te, pushTrade_trades,
+        Life.step, Life.init, Crosses, Position.signedQty, signedQty, habs] <;>
+      rcases hps' with hps | hps <;> rcases hts' with hts | hts <;> simp_all <;> grind [abs]
+  · constructor <;>
+      simp only [reduce_side, reduce_qabs, reduce_qmax, reduce_te, reduce_trades,
+        pushTrade_side, pushTrade_qabs, pushTrade_qmax, pushTrade_te, pushTrade_trades,
+        Life.step, Life.init, Crosses, Position.signedQty, signedQty, habs] <;>
+      rcases hps' with hps | hps <;> rcases hts' with hts | hts <;> simp_all <;> grind [abs]
+  · refine ⟨?_, ?_⟩
+    · simp only [Life.step, Life.init, Crosses, Position.signedQty, signedQty]
+      rcases hps' with hps | hps <;> rcases hts' with hts | hts <;> simp_all <;> grind [abs]
+    · simp
+  · refine ⟨?_, ?_⟩
+    · rw [flip_next]
+      constructor <;>
+        simp only [Position.ofTrade, pushTrade_qabs, Life.step, Life.init, Crosses,
+          Position.signedQty, signedQty, habs] <;>
+        rcases hps' with hps | hps <;> rcases hts' with hts | hts <;> simp_all <;> grind [abs]
+    · simp
+
+
+
+/-- The manager's open position (if any) is the one whose life the history describes. -/
+def PMLife (pm : PositionManager) (l : Life) : Prop :=
+  match pm.current with
+  | none => l = Life.init
+  | some p => LifeRel p l
+
+theorem Life.step_net (l : Life) (f : Trade) : (l.step f).net = l.net + signedQty f := by
+  unfold Life.step; simp only
+  split
+  · rfl
+  · split
+    · simp_all [Life.init]
+    · rfl
+
+theorem life_net_from (l : Life) (fs : List Trade) : (fs.foldl Life.step l).net = l.net + net fs := by
+  induction fs generalizing l with
+  | nil => simp [net, Rat.add_zero]
+  | cons f fs ih => simp [ih, Life.step_net, net, Rat.add_assoc]
+
+theorem life_net (fs : List Trade) : (life fs).net = net fs := by
+  simpa [life, Life.init, Rat.zero_add] using life_net_from Life.init fs
+
+theorem pm_update_life {i : Nat} {pm : PositionManager} (hp : PMWF i pm) {l : Life}
+    (hl : PMLife pm l) {t : Trade} (hi : t.instrument = i) (hq : 0 < t.quantity) :
+    PMLife (pm.update t).1 (l.step t) ∧
+    (∀ e, (pm.update t).2 = some e → ∃ p, pm.current = some p ∧
+      e.trades = l.ids ++ [t.id] ∧ e.quantityAbsMax = l.maxAbs ∧ e.timeEnter = l.timeEnter ∧
+      e.timeExit = t.time ∧ e.side = p.side ∧ e.instrument = p.instrument ∧
+      e.priceEntryAverage = p.priceEntryAverage) := by
+  unfold PMLife PositionManager.update at *
+  cases hc : pm.current with
+  | none =>
+    simp only [hc] at hl
+    subst hl
+    exact ⟨ofTrade_life hq, by simp⟩
+  | some p =>
+    simp only [hc] at hl
+    have ⟨a, b, c⟩ := update_life (hp p hc) hl hi hq
+    refine ⟨?_, ?_⟩
+    · simp only
+      cases hu : (p.updateFromTrade t).1 with
+      | none => exact b hu
+      | some p' => exact a p' hu
+    · intro e he
+      exact ⟨p, rfl, c e he⟩
+
+theorem life_run {i : Nat} (fs : List Trade) (h1 : OneInstrument i fs) (h2 : PosQty fs)
+    {r : Run} {n c F : Rat} (h : Inv i r n c F) {l : Life} (hl : PMLife r.pm l) :
+    PMLife (r.run fs).pm (fs.foldl Life.step l) := by
+  induction fs generalizing r n c F l with
+  | nil => simpa [Run.run] using hl
+  | cons f fs ih =>
+    have hi := h1 f (by simp)
+    have hq := h2 f (by simp)
+    have := ih (fun x hx => h1 x (by simp [hx])) (fun x hx => h2 x (by simp [hx]))
+      (inv_step h hi hq) (l := l.step f) (pm_update_life h.wf hl hi hq).1
+    simpa [Run.run] using this
+
+theorem life_runFills {i : Nat} (fs : List Trade) (h1 : OneInstrument i fs) (h2 : PosQty fs) :
+    PMLife (runFills fs).pm (life fs) :=
+  life_run fs h1 h2 (inv_init i) (l := Life.init) (by simp [PMLife, Run.init, PositionManager.init])
+
+/-! ### Engine routing -/
+
+theorem instruments_run_get (fs : List Trade) (s : Instruments) (i : Nat) (r : Run)
+    (h : s[i]? = some r) :
+    (Instruments.run s fs)[i]? = some (r.run (fs.filter (fun f => f.instrument = i))) := by
+  induction fs generalizing s r with
+  | nil => simpa [Instruments.run, Run.run] using h
+  | cons f fs ih =>
+    simp only [Instruments.run, List.foldl_cons] at *
+    by_cases hf : f.instrument = i
+    · have : (Instruments.step s f)[i]? = some (r.step f) := by
+        have hlt : i < s.length := by
+          rcases Nat.lt_or_ge i s.length with hl | hl
+          · exact hl
+          · simp [List.getElem?_eq_none hl] at h
+        have hr : s[i] = r := by
+          have := List.getElem?_eq_getElem hlt
+          rw [h] at this; exact (Option.some.inj this).symm
+        simp [Instruments.step, hf, hlt, hr]
+      rw [ih _ _ this]; simp [hf, Run.run]
+    · have : (Instruments.step s f)[i]? = some r := by
+        unfold Instruments.step
+        cases hg : s[f.instrument]? with
+        | none => simpa using h
+        | some r' => simp [hf, h]
+      rw [ih _ _ this]; simp [hf]
+
+
+
+/-- A crossing fill closes the position with the pro-rata exit fee and opens the opposite one with
+the remainder and the pro-rata entry fee. -/
+theorem update_cross {i : Nat} {p : Position} (hp : WF i p) {t : Trade} (hi : t.instrument = i)
+    (hq : 0 < t.quantity) (hx : Crosses p.signedQty (p.signedQty + signedQty t)) :
+    ∃ p' e, p.updateFromTrade t = (some p', some e) ∧
+      p'.side = t.side ∧ p'.instrument = i ∧
+      p'.quantityAbs = abs (p.signedQty + signedQty t) ∧
+      p'.quantityAbsMax = abs (p.signedQty + signedQty t) ∧
+      p'.priceEntryAverage = t.price ∧
+      p'.feesEnter = t.fees * (abs (p.signedQty + signedQty t) / t.quantity) ∧
+      p'.feesExit = 0 ∧
+      p'.pnlRealised = -(t.fees * (abs (p.signedQty + signedQty t) / t.quantity)) ∧
+      p'.trades = [t.id] ∧ p'.timeEnter = t.time ∧
+      e.feesEnter = p.feesEnter ∧
+      e.feesExit = p.feesExit + t.fees * (abs p.signedQty / t.quantity) := by
+  have hi' : p.instrument = t.instrument := by rw [hp.instr, hi]
+  have habs := abs_pos hq
+  have ⟨h1, h2, h3⟩ := hp
+  have hsabs := signed_abs hp
+  have hps' : p.side = .buy ∨ p.side = .sell := by cases p.side <;> simp
+  have hts' : t.side = .buy ∨ t.side = .sell := by cases t.side <;> simp
+  unfold Crosses at hx
+  rcases updateFromTrade_cases p t hi' with ⟨hs, h⟩ | ⟨hs, hlt, h⟩ | ⟨hs, heq, h⟩ | ⟨hs, hlt, h⟩
+  · exfalso; simp only [Position.signedQty, signedQty] at hx
+    rcases hps' with hps | hps <;> rcases hts' with hts | hts <;> simp_all <;> grind
+  · exfalso; simp only [Position.signedQty, signedQty, habs] at hx hlt
+    rcases hps' with hps | hps <;> rcases hts' with hts | hts <;> simp_all <;> grind
+  · exfalso; simp only [Position.signedQty, signedQty, habs] at hx heq
+    rcases hps' with hps | hps <;> rcases hts' with hts | hts <;> simp_all <;> grind
+  · refine ⟨_, _, h, ?_⟩
+    rw [flip_next, hsabs]
+    simp only [Position.ofTrade, pushTrade_qabs, pushTrade_fe, pushTrade_fx, flip_exit_fe,
+      flip_exit_fx, habs, Position.signedQty, signedQty] at *
+    rcases hps' with hps | hps <;> rcases hts' with hts | hts <;> simp_all <;> grind [abs]
+
+/-- An exactly closing fill leaves no position and charges its whole fee as exit fee. -/
+theorem update_close {i : Nat} {p : Position} (hp : WF i p) {t : Trade} (hi : t.instrument = i)
+    (hq : 0 < t.quantity) (hx : p.signedQty + signedQty t = 0) :
+    ∃ e, p.updateFromTrade t = (none, some e) ∧
+      e.feesEnter = p.feesEnter ∧ e.feesExit = p.feesExit + t.fees := by
+  have hi' : p.instrument = t.instrument := by rw [hp.instr, hi]
+  have habs := abs_pos hq
+  have ⟨h1, h2, h3⟩ := hp
+  have hps' : p.side = .buy ∨ p.side = .sell := by cases p.side <;> simp
+  have hts' : t.side = .buy ∨ t.side = .sell := by cases t.side <;> simp
+  rcases updateFromTrade_cases p t hi' with ⟨hs, h⟩ | ⟨hs, hlt, h⟩ | ⟨hs, heq, h⟩ | ⟨hs, hlt, h⟩
+  · exfalso; simp only [Position.signedQty, signedQty] at hx
+    rcases hps' with hps | hps <;> rcases hts' with hts | hts <;> simp_all <;> grind
+  · exfalso; simp only [Position.signedQty, signedQty, habs] at hx hlt
+    rcases hps' with hps | hps <;> rcases hts' with hts | hts <;> simp_all <;> grind
+  · exact ⟨_, h, by simp⟩
+  · exfalso; simp only [Position.signedQty, signedQty, habs] at hx hlt
+    rcases hps' with hps | hps <;> rcases hts' with hts | hts <;> simp_all <;> grind
+
+/-- In a well-formed manager the side is the sign of the signed quantity. -/
+theorem pm_side_of_signed {i : Nat} {pm : PositionManager} (hp : PMWF i pm) :
+    pm.side = sideOfNet pm.signedQty := by
+  unfold PositionManager.side PositionManager.signedQty sideOfNet
+  cases hc : pm.current with
+  | none => simp
+  | some p =>
+    have := (hp p hc).pos
+    have hps' : p.side = .buy ∨ p.side = .sell := by cases p.side <;> simp
+    simp only [Option.map_some, Position.signedQty]
+    rcases hps' with hps | hps <;> simp [hps] <;> grind
+
+/-- Instrument mismatch arm: the fill is ignored. -/
+theorem update_mismatch (p : Position) (t : Trade) (h : p.instrument ≠ t.instrument) :
+    p.updateFromTrade t = (some p, none) := by
+  unfold Position.updateFromTrade; simp [h]
+
+
+theorem step_exits_length {i : Nat} {r : Run} {n c F : Rat} (h : Inv i r n c F) {t : Trade}
+    (hi : t.instrument = i) (hq : 0 < t.quantity) :
+    (r.step t).exits.length =
+      r.exits.length + (if ReachesOrCrossesZero n (n + signedQty t) then 1 else 0) := by
+  have := pm_update_exit_iff h.wf hi hq
+  rw [← pm_signed_eq, h.signed] at this
+  simp only [Run.step, List.length_append]
+  by_cases hx : ReachesOrCrossesZero n (n + signedQty t)
+  · have h1 := this.mpr hx
+    obtain ⟨e, he⟩ := Option.isSome_iff_exists.mp h1
+    simp [hx, he]
+  · have h1 : (r.pm.update t).2 = none := by
+      cases hu : (r.pm.update t).2 with
+      | none => rfl
+      | some e => exact absurd (this.mp (by simp [hu])) hx
+    simp [hx, h1]
+
+theorem run_exits_length {i : Nat} (fs : List Trade) (h1 : OneInstrument i fs) (h2 : PosQty fs)
+    {r : Run} {n c F : Rat} (h : Inv i r n c F) :
+    (r.run fs).exits.length = r.exits.length + zeroTouches n fs := by
+  induction fs generalizing r n c F with
+  | nil => simp [Run.run, zeroTouches]
+  | cons f fs ih =>
+    have hi := h1 f (by simp)
+    have hq := h2 f (by simp)
+    have := ih (fun x hx => h1 x (by simp [hx])) (fun x hx => h2 x (by simp [hx]))
+      (inv_step h hi hq)
+    simp only [Run.run, List.foldl_cons] at this ⊢
+    rw [this, step_exits_length h hi hq]
+    simp [zeroTouches, Nat.add_assoc]
+
 end BarterModel.Position
